@@ -2,7 +2,7 @@
 
 use crate::{
     cover,
-    sock::{ScriptRead, ScriptSocket},
+    sock::ScriptRead,
     Nd,
 };
 use core::{
@@ -14,8 +14,8 @@ use core::{
 use futures_util::stream::Stream;
 use serde::Deserialize;
 use zlink_core::{
-    connection::{chain::ReplyStream, ReadConnection},
-    reply, Connection, Reply,
+    connection::{chain::ReplyStream, verif::BUFFER_SIZE as RSTEP, ReadConnection},
+    reply, Reply,
 };
 
 #[derive(Debug, Deserialize, PartialEq)]
@@ -75,7 +75,15 @@ const MAX_ITEMS: usize = 6;
 /// outcomes. `PEND`: whether receive futures may return `Pending` first.
 pub fn stream_counts<const MAXC: usize, const PEND: bool>(nd: &mut Nd) {
     let call_count = nd.below(MAXC + 1);
-    let (mut rc, _w) = Connection::new(ScriptSocket::idle()).split();
+    // The connection holds a frame of a later exchange, already buffered behind what was consumed,
+    // in a buffer that has grown beyond one step: whatever the stream does on its own account
+    // (the receive function of this harness never touches the connection) must leave it there.
+    let mut pre = vec![0x41u8; 2 * RSTEP];
+    pre[RSTEP / 2 - 1] = 0;
+    pre[RSTEP + 1] = 0;
+    pre[RSTEP + 2] = 0;
+    let (pre_rp, pre_mp) = (RSTEP + 2, RSTEP / 2);
+    let mut rc = ReadConnection::verif_from_parts(ScriptRead::idle(), pre, pre_rp, pre_mp, 3);
 
     let mut kinds = [0usize; MAX_ITEMS];
     let mut pends = [0usize; MAX_ITEMS];
@@ -100,14 +108,14 @@ pub fn stream_counts<const MAXC: usize, const PEND: bool>(nd: &mut Nd) {
             polls: fut_polls_ptr,
         }
     };
-    let stream = ReplyStream::new(&mut rc, f, call_count);
-    let mut stream = core::pin::pin!(stream);
-
     let mut owed = call_count;
     let mut broken = false; // a transport/decode error was yielded
     let mut ended = false;
     let mut yielded = 0usize;
     let mut waiting = false; // a receive future is in flight (returned Pending)
+    {
+    let stream = ReplyStream::new(&mut rc, f, call_count);
+    let mut stream = core::pin::pin!(stream);
     let mut p = 0;
     let max_polls = if PEND { 2 * MAX_ITEMS + 2 } else { MAX_ITEMS + 2 };
     while p < max_polls {
@@ -176,10 +184,169 @@ pub fn stream_counts<const MAXC: usize, const PEND: bool>(nd: &mut Nd) {
         }
         p += 1;
     }
+    }
+    {
+        let (buf, rp, mp) = rc.verif_parts();
+        assert!(rp == pre_rp && mp == pre_mp && buf.len() == 2 * RSTEP, "C06.stream_leaves_frames_of_later_exchanges_in_place");
+        let mut same = true;
+        let mut k = 0;
+        while k < 2 * RSTEP {
+            let want = if k == RSTEP / 2 - 1 || k == RSTEP + 1 || k == RSTEP + 2 { 0 } else { 0x41 };
+            if buf[k] != want {
+                same = false;
+            }
+            k += 1;
+        }
+        assert!(same, "C06.stream_leaves_frames_of_later_exchanges_in_place");
+        assert!(rc.read_half().calls == 0, "C06.stream_reads_only_through_its_receive_function");
+    }
     cover!(nd, ended && yielded == MAX_ITEMS.min(4) && !broken, "stream ended after 4 items without error");
     cover!(nd, ended && broken, "stream ended after a transport error");
     cover!(nd, ended && call_count == 0, "all-oneway chain: nothing owed");
     if PEND {
         cover!(nd, fut_polls.get() > yielded && yielded > 0, "an item arrived after a Pending");
     }
+}
+
+// ------------------------------------------------------------------------------------------
+// Chain bookkeeping: the real `Connection::chain_call` / `Chain::append` / `Chain::send`.
+
+use crate::p02::{expect_call, Empty};
+use crate::p12::{PSock, WCAP};
+use zlink_core::Call;
+
+#[derive(Debug, Deserialize, PartialEq)]
+pub struct NoErr {}
+
+fn flags_of(bits: usize) -> (bool, bool) {
+    (bits & 1 != 0, bits & 2 != 0)
+}
+
+fn call_with(oneway: bool, more: bool) -> Call<Empty> {
+    Call::new(Empty {}).set_oneway(oneway).set_more(more)
+}
+
+/// A chain of N calls (N <= 3) on a fresh connection: the flags (oneway, more) of the first N-1
+/// calls are fixed by the instance (PFX, two bits per call) so that every document starts at a
+/// concrete offset (R1); the flags of the last call are symbolic. The chain must have enqueued
+/// exactly the N documents, in order, each followed by one NUL, and must expect one reply per
+/// call that is not oneway. With SEND, `send()` is then polled once: it completes with exactly one
+/// write carrying exactly those bytes and has not touched the read side.
+pub fn chain_counts<const N: usize, const PFX: usize, const SEND: bool>(nd: &mut Nd) {
+    let last_oneway = nd.bool();
+    let last_more = nd.bool();
+    let mut c = crate::p12::conn();
+    let mut want = crate::refjson::Doc::<WCAP>::new();
+    let mut owed = 0usize;
+    let mut calls = [call_with(false, false), call_with(false, false), call_with(false, false)];
+    let mut i = 0;
+    while i < N {
+        let (ow, mo) = if i + 1 == N { (last_oneway, last_more) } else { flags_of(PFX >> (2 * i)) };
+        calls[i] = call_with(ow, mo);
+        let d = expect_call(ow, mo, false);
+        let mut j = 0;
+        while j < crate::p02::DOCMAX {
+            if j < d.n {
+                want.push(d.b[j]);
+            }
+            j += 1;
+        }
+        want.push(0);
+        if !ow {
+            owed += 1;
+        }
+        i += 1;
+    }
+    {
+        let chain = match c.chain_call::<Empty, u8, NoErr>(&calls[0]) {
+            Ok(ch) => ch,
+            Err(e) => {
+                core::mem::forget(e);
+                panic!("C06.chain_start_accepted");
+            }
+        };
+        let chain = if N >= 2 {
+            match chain.append(&calls[1]) {
+                Ok(ch) => ch,
+                Err(e) => {
+                    core::mem::forget(e);
+                    panic!("C06.chain_append_accepted");
+                }
+            }
+        } else {
+            chain
+        };
+        let chain = if N >= 3 {
+            match chain.append(&calls[2]) {
+                Ok(ch) => ch,
+                Err(e) => {
+                    core::mem::forget(e);
+                    panic!("C06.chain_append_accepted");
+                }
+            }
+        } else {
+            chain
+        };
+        let (ncalls, nreplies) = chain.verif_counts();
+        assert!(ncalls == N, "C06.chain_counts_every_call");
+        assert!(nreplies == owed, "C06.one_reply_expected_per_call_that_is_not_oneway");
+        if SEND {
+            let fut = chain.send();
+            let mut fut = core::pin::pin!(fut);
+            match crate::exec::poll_once(fut.as_mut()) {
+                Poll::Ready(Ok(stream)) => {
+                    // (polling the stream would start receive_reply, a further 3-deep nest: out of reach)
+                    core::mem::forget(stream);
+                }
+                Poll::Ready(Err(e)) => {
+                    core::mem::forget(e);
+                    panic!("C06.send_succeeds_on_a_writable_transport");
+                }
+                Poll::Pending => panic!("C06.send_completes_when_the_write_completes"),
+            }
+        } else {
+            core::mem::forget(chain);
+        }
+    }
+    if SEND {
+        let w = c.write().write_half();
+        assert!(w.writes == 1, "C06.all_calls_in_one_write");
+        assert!(w.len == want.n, "C06.the_write_carries_exactly_the_chain");
+        let mut same = true;
+        let mut k = 0;
+        while k < WCAP {
+            if k < want.n && w.data[k] != want.b[k] {
+                same = false;
+            }
+            k += 1;
+        }
+        assert!(same, "C06.calls_on_the_wire_in_chain_order");
+        assert!(c.read().read_half().calls == 0, "C06.send_itself_receives_nothing");
+    } else {
+        let (buf, pos) = c.write().verif_parts();
+        assert!(pos == want.n, "C06.chain_enqueues_exactly_its_calls");
+        let mut same = true;
+        let mut k = 0;
+        while k < WCAP {
+            if k < want.n && k < buf.len() && buf[k] != want.b[k] {
+                same = false;
+            }
+            k += 1;
+        }
+        assert!(same, "C06.calls_on_the_wire_in_chain_order");
+    }
+    // (reachable only when every call fixed by the instance is oneway)
+    let mut prefix_owed = 0;
+    let mut i = 0;
+    while i + 1 < N {
+        if !flags_of(PFX >> (2 * i)).0 {
+            prefix_owed += 1;
+        }
+        i += 1;
+    }
+    if prefix_owed == 0 {
+        cover!(nd, owed == 0, "chain of oneway calls only");
+    }
+    cover!(nd, last_more && !last_oneway, "last call streams");
+    core::mem::forget(c);
 }
